@@ -424,3 +424,16 @@ def removes_from_vec(call):
     return n in ("drain", "clear", "truncate", "pop", "remove", "swap_remove", "retain", "split_off", "take",
                  "dedup", "drain_filter", "extract_if", "retain_mut", "set_len") and \
         ("std::vec::Vec" in (call.self_ty or "") or call.path in ("std::mem::take", "std::mem::replace", "std::mem::swap"))
+
+
+def closure_of_arg_any(facts, body, call):
+    """the closure literal passed as any argument of a call"""
+    from ..dataflow import single_def as _sd
+    for a in call.args:
+        if a[0] in ("c", "m") and len(a[1]) == 1:
+            d = _sd(body, a[1][0])
+            if d and d[0] == "assign" and d[3][0] == "agg" and d[3][1] == "closure":
+                cb = facts.body_by_path_opt(d[3][2])
+                if cb is not None:
+                    return cb
+    return None
